@@ -71,7 +71,7 @@ def field_optimization_wp_space_fr(
         )
 
         # Assuming that the rotation with the maximum number of boreholes is most efficiently using space
-        if len(hole) > max_l:
+        if max_hole is None or len(hole) > max_l:
             max_l = len(hole)
             max_rt = rt * RAD_TO_DEG
             max_hole = hole
@@ -138,7 +138,7 @@ def field_optimization_fr(
         )
 
         # Assuming that the rotation with the maximum number of boreholes is most efficiently using space
-        if len(hole) > max_l:
+        if max_hole is None or len(hole) > max_l:
             max_l = len(hole)
             max_rt = rt * RAD_TO_DEG
             max_hole = hole
